@@ -54,10 +54,9 @@ ACLIntRange::empty() const
 bool
 ACLIntRange::match(int i)
 {
-    RangeType const toFind(i, i+1);
+    // do not build [i, i+1): i+1 overflows for i == INT_MAX
     for (const auto &element : ranges) {
-        RangeType result = element.intersection(toFind);
-        if (result.size())
+        if (element.start <= i && i < element.end)
             return true;
     }
 
